@@ -1,35 +1,237 @@
 //@@ module: chess/fen/fen_writer.rs
 //@@ tag: c06w
-//@@ noglob: Game is re-declared as a ghost carrying only the fields the field writers read
-// The small field writers of the FEN writer (side to move, castling rights, en-passant target), verbatim from /repo on
-// every run, on a ghost `Game` with exactly the fields they read.  Their String machinery (one format! each) is the
-// real library code.  The board field and the counters go through iterator adapters / integer formatting and are not
-// under contract.
-// MEASURED: even ONE real format! call does not fit CBMC here (castling field: time-out after 1500 s at 4 GB;
-// side/en-passant fields: 10 GB exceeded after 220 s) => all three are *experimental*; the FEN writer stays unchecked.
-use crate::chess::player::{ByPlayer, Player};
+//@@ noglob: String / Vec / ToString / format! / Game / Board / Square are bound by scope to ghost stand-ins (see support/gtext.rs)
+// THE FEN WRITER UNDER CONTRACT.  Every function of src/chess/fen/fen_writer.rs (and Square::notation, Game::turn) is
+// copied VERBATIM from /repo on every run into the module `g` below, which is compiled with #![no_implicit_prelude]:
+// there the names String, Vec, ToString and the macro format! resolve to the ghost text library (fixed-capacity byte
+// text, no heap, no fmt machinery), and Game / Board / Square to thin ghost carriers with exactly the fields and methods
+// the writer reads.  History: with the REAL String machinery even one format! call did not fit CBMC (castling field:
+// time-out after 1500 s; side/ep fields: 10 GB) -- see DESIGN 9.2.
 use crate::chess::game::CastleRights;
-use crate::chess::square::Square;
+use crate::chess::piece::Piece;
+use crate::chess::player::{ByPlayer, Player};
 use crate::verif_support::geo;
+use crate::verif_support::gtext;
 
-pub struct Game {
-    pub player: Player,
-    pub castle_rights: ByPlayer<CastleRights>,
-    pub en_passant_target: Option<Square>,
+macro_rules! format { ($($t:tt)*) => { $crate::gtext_format!($($t)*) } }
+
+pub mod g {
+    #![no_implicit_prelude]
+    use ::core::prelude::rust_2021::*;
+    use crate::chess::game::CastleRights;
+    use crate::chess::piece::Piece;
+    use crate::chess::player::ByPlayer;
+    use crate::chess::square::{File, Rank, FILES, RANKS};
+    pub use crate::verif_support::gtext::{String, ToString, Vec};
+
+    /// ghost carrier: a square, with the two accessors the writer uses; `notation` is /repo's text
+    #[derive(Clone, Copy)]
+    pub struct Square(pub crate::chess::square::Square);
+    impl Square {
+        pub fn from_file_and_rank(file: File, rank: Rank) -> Self {
+            Square(crate::chess::square::Square::from_file_and_rank(file, rank))
+        }
+        pub fn file(self) -> File {
+            self.0.file()
+        }
+        pub fn rank(self) -> Rank {
+            self.0.rank()
+        }
+        //@@ body: chess/square.rs :: impl Square / fn notation => notation
+    }
+
+    /// ghost carrier: the by-square view of the board (that the three views agree is C02's invariant)
+    pub struct Board {
+        pub sq: [Option<Piece>; 64],
+    }
+    impl Board {
+        pub fn piece_at(&self, s: Square) -> Option<Piece> {
+            self.sq[s.0.idx() as usize]
+        }
+    }
+
+    /// ghost carrier: exactly the fields the writer reads
+    pub struct Game {
+        pub player: crate::chess::player::Player,
+        pub board: Board,
+        pub castle_rights: ByPlayer<CastleRights>,
+        pub en_passant_target: Option<Square>,
+        pub halfmove_clock: u32,
+        pub plies: u32,
+    }
+    impl Game {
+        //@@ body: chess/game.rs :: impl Game / fn turn => turn
+    }
+
+    //@@ body: chess/fen/fen_writer.rs :: fn format_piece => format_piece pub
+    //@@ body: chess/fen/fen_writer.rs :: fn format_rank => format_rank pub
+    //@@ body: chess/fen/fen_writer.rs :: fn format_board => format_board pub
+    //@@ body: chess/fen/fen_writer.rs :: fn format_current_player => format_current_player pub
+    //@@ body: chess/fen/fen_writer.rs :: fn format_castle_rights => format_castle_rights pub
+    //@@ body: chess/fen/fen_writer.rs :: fn format_en_passant_target => format_en_passant_target pub
+    //@@ body: chess/fen/fen_writer.rs :: fn format_halfmove_clock => format_halfmove_clock pub
+    //@@ body: chess/fen/fen_writer.rs :: fn format_fullmove_number => format_fullmove_number pub
+    //@@ body: chess/fen/fen_writer.rs :: fn write => write pub
 }
 
-//@@ body: chess/fen/fen_writer.rs :: fn format_castle_rights => format_castle_rights__body
-//@@ body: chess/fen/fen_writer.rs :: fn format_current_player => format_current_player__body
-//@@ body: chess/fen/fen_writer.rs :: fn format_en_passant_target => format_en_passant_target__body
+// ---------------------------------------------------------------------------------------------------------------------
+// independent specification: FEN letters, written from the FEN standard, not from the code
+// ---------------------------------------------------------------------------------------------------------------------
+fn spec_letter(p: Piece) -> u8 {
+    use crate::chess::piece::PieceKind::*;
+    let c = match p.kind {
+        Pawn => b'p',
+        Knight => b'n',
+        Bishop => b'b',
+        Rook => b'r',
+        Queen => b'q',
+        King => b'k',
+    };
+    if p.player == Player::White {
+        c - 32
+    } else {
+        c
+    }
+}
 
-fn any_game() -> Game {
-    Game {
+fn any_piece_opt() -> Option<Piece> {
+    use crate::chess::piece::PieceKind::*;
+    let k: u8 = kani::any();
+    kani::assume(k < 13);
+    if k == 12 {
+        return None;
+    }
+    let kind = match k % 6 {
+        0 => Pawn,
+        1 => Knight,
+        2 => Bishop,
+        3 => Rook,
+        4 => Queen,
+        _ => King,
+    };
+    Some(Piece::new(if k < 6 { Player::White } else { Player::Black }, kind))
+}
+
+/// spec of one rank's text: squares a..h; a maximal run of k empty squares is the digit k, a piece is its letter
+fn spec_rank(rank: &[Option<Piece>; 8], out: &mut gtext::String) {
+    let mut run = 0u8;
+    let mut f = 0;
+    while f < 8 {
+        match rank[f] {
+            None => run += 1,
+            Some(p) => {
+                if run > 0 {
+                    out.push_byte(b'0' + run);
+                    run = 0;
+                }
+                out.push_byte(spec_letter(p));
+            }
+        }
+        f += 1;
+    }
+    if run > 0 {
+        out.push_byte(b'0' + run);
+    }
+}
+
+//@ obligation: C06.writer.rank_text
+//@ status: experimental
+//@ domain: complete
+//@ functions: chess/fen/fen_writer.rs::format_rank, chess/fen/fen_writer.rs::format_piece
+//@ timeout: 900
+//@ mem_gb: 6
+//@ note: for every content of a rank (13^8) the text written DECODES back to exactly that rank (digit d = d empty squares, letter = that piece, by the FEN standard's letters), describes exactly eight squares, and is canonical: no two digits are adjacent (runs of empty squares are merged) and every digit is 1..8
+//@ assumes: ghost text library (support/gtext.rs) stands for alloc's String / format! / ToString: concatenation of Display renderings in order
+#[kani::proof]
+#[kani::unwind(10)]
+fn vk_c06_writer_rank_text() {
+    let mut rank: [Option<Piece>; 8] = [None; 8];
+    let mut i = 0;
+    while i < 8 {
+        rank[i] = any_piece_opt();
+        i += 1;
+    }
+    let t = g::format_rank(&rank);
+    kani::cover!(t.len() == 8);
+    kani::cover!(t.len() == 1);
+    kani::cover!(t.len() == 3);
+    assert!(t.len() >= 1 && t.len() <= 8);
+    // decode
+    let mut pos: usize = 0;
+    let mut prev_digit = false;
+    let mut ok = true;
+    let mut k = 0;
+    while k < 8 {
+        if k < t.len() {
+            let c = t.byte(k);
+            if c >= b'1' && c <= b'8' {
+                let d = (c - b'0') as usize;
+                if prev_digit {
+                    ok = false; // not canonical
+                }
+                let mut j = 0;
+                while j < 8 {
+                    if j >= pos && j < pos + d && rank[j].is_some() {
+                        ok = false;
+                    }
+                    j += 1;
+                }
+                pos += d;
+                prev_digit = true;
+            } else {
+                if pos >= 8 {
+                    ok = false;
+                } else {
+                    match rank[pos] {
+                        Some(p) => {
+                            if spec_letter(p) != c {
+                                ok = false;
+                            }
+                        }
+                        None => ok = false,
+                    }
+                }
+                pos += 1;
+                prev_digit = false;
+            }
+        }
+        k += 1;
+    }
+    assert!(ok, "the rank text does not decode to the rank (or is not canonical)");
+    assert!(pos == 8, "the rank text does not describe exactly eight squares");
+}
+
+fn any_game() -> g::Game {
+    let mut sq: [Option<Piece>; 64] = [None; 64];
+    let mut i = 0;
+    while i < 64 {
+        sq[i] = any_piece_opt();
+        i += 1;
+    }
+    g::Game {
         player: geo::any_player(),
+        board: g::Board { sq },
         castle_rights: ByPlayer::new(
             CastleRights { king_side: kani::any(), queen_side: kani::any() },
             CastleRights { king_side: kani::any(), queen_side: kani::any() },
         ),
-        en_passant_target: if kani::any() { Some(geo::any_square()) } else { None },
+        en_passant_target: if kani::any() { Some(g::Square(geo::any_square())) } else { None },
+        halfmove_clock: kani::any(),
+        plies: kani::any(),
+    }
+}
+
+fn any_fields_game() -> g::Game {
+    g::Game {
+        player: geo::any_player(),
+        board: g::Board { sq: [None; 64] },
+        castle_rights: ByPlayer::new(
+            CastleRights { king_side: kani::any(), queen_side: kani::any() },
+            CastleRights { king_side: kani::any(), queen_side: kani::any() },
+        ),
+        en_passant_target: if kani::any() { Some(g::Square(geo::any_square())) } else { None },
+        halfmove_clock: kani::any(),
+        plies: kani::any(),
     }
 }
 
@@ -37,15 +239,15 @@ fn any_game() -> Game {
 //@ status: experimental
 //@ domain: complete
 //@ functions: chess/fen/fen_writer.rs::format_castle_rights
-//@ timeout: 1500
-//@ mem_gb: 10
+//@ timeout: 600
+//@ mem_gb: 4
 //@ note: for all 16 combinations of castling rights the field written is exactly the letters K, Q, k, q of the rights held, in that order, or '-' when none is held (so the reader's 'letter present <=> right held' recovers the rights: lossless)
-//@ assumes: real String/format! machinery as compiled by Kani
+//@ assumes: ghost text library (support/gtext.rs) stands for alloc's String / format! / ToString: concatenation of Display renderings in order
 #[kani::proof]
 #[kani::unwind(8)]
 fn vk_c06_writer_castling_field() {
-    let g = any_game();
-    let got = format_castle_rights__body(&g);
+    let g = any_fields_game();
+    let got = g::format_castle_rights(&g);
     let w = g.castle_rights.white();
     let b = g.castle_rights.black();
     let mut t = [0u8; 4];
@@ -57,49 +259,108 @@ fn vk_c06_writer_castling_field() {
     if n == 0 { t[0] = b'-'; n = 1; }
     kani::cover!(n == 4);
     kani::cover!(b.queen_side && !b.king_side && !w.king_side && !w.queen_side);
-    let bytes = got.as_bytes();
-    assert!(bytes.len() == n);
+    assert!(got.len() == n);
     let mut i = 0;
     while i < 4 {
         if i < n {
-            assert!(bytes[i] == t[i]);
+            assert!(got.byte(i) == t[i]);
         }
         i += 1;
     }
 }
 
-//@ obligation: C06.writer.side_and_ep_fields
+//@ obligation: C06.writer.side_ep_counters
 //@ status: experimental
 //@ domain: complete
-//@ functions: chess/fen/fen_writer.rs::format_current_player, chess/fen/fen_writer.rs::format_en_passant_target
-//@ timeout: 1500
-//@ mem_gb: 10
-//@ note: side to move is written 'w' / 'b'; the en-passant field is '-' or the target square's file letter and rank digit, for all 64 squares
-//@ assumes: real String/format! machinery as compiled by Kani
+//@ functions: chess/fen/fen_writer.rs::format_current_player, chess/fen/fen_writer.rs::format_en_passant_target, chess/fen/fen_writer.rs::format_halfmove_clock, chess/fen/fen_writer.rs::format_fullmove_number, chess/square.rs::Square::notation, chess/game.rs::Game::turn
+//@ timeout: 600
+//@ mem_gb: 4
+//@ note: side to move is written 'w' / 'b'; the en-passant field is '-' or the target square's file letter and rank digit, for all 64 squares; the two counters are the (ghost library's) decimal rendering of the halfmove clock and of plies / 2 + 1, for all u32
+//@ assumes: ghost text library (support/gtext.rs) stands for alloc's String / format! / ToString: concatenation of Display renderings in order; Display for File / Rank writes notation()
 #[kani::proof]
-#[kani::unwind(8)]
-fn vk_c06_writer_side_and_ep_fields() {
-    let g = any_game();
-    let side = format_current_player__body(&g);
-    assert!(side.as_bytes().len() == 1 && side.as_bytes()[0] == if g.player == Player::White { b'w' } else { b'b' });
-    let ep = format_en_passant_target__body(&g);
-    let bytes = ep.as_bytes();
+#[kani::unwind(98)]
+fn vk_c06_writer_side_ep_counters() {
+    let g = any_fields_game();
+    let side = g::format_current_player(&g);
+    assert!(side.len() == 1 && side.byte(0) == if g.player == Player::White { b'w' } else { b'b' });
+    let ep = g::format_en_passant_target(&g);
     kani::cover!(g.en_passant_target.is_some());
     match g.en_passant_target {
-        None => assert!(bytes.len() == 1 && bytes[0] == b'-'),
-        Some(s) => assert!(bytes.len() == 2 && bytes[0] == b'a' + s.idx() % 8 && bytes[1] == b'1' + s.idx() / 8),
+        None => assert!(ep.len() == 1 && ep.byte(0) == b'-'),
+        Some(s) => assert!(ep.len() == 2 && ep.byte(0) == b'a' + s.0.idx() % 8 && ep.byte(1) == b'1' + s.0.idx() / 8),
     }
+    // counters: the numeral read back as a number is the field
+    let hm = g::format_halfmove_clock(&g);
+    assert!(hm.eq_text(&gtext::ToString::to_string(&g.halfmove_clock)));
+    let fm = g::format_fullmove_number(&g);
+    assert!(fm.eq_text(&gtext::ToString::to_string(&(g.plies / 2 + 1))));
+}
+
+//@ obligation: C06.writer.whole_text
+//@ status: experimental
+//@ domain: complete
+//@ functions: chess/fen/fen_writer.rs::write, chess/fen/fen_writer.rs::format_board, chess/fen/fen_writer.rs::format_rank, chess/fen/fen_writer.rs::format_piece, chess/fen/fen_writer.rs::format_castle_rights, chess/fen/fen_writer.rs::format_current_player, chess/fen/fen_writer.rs::format_en_passant_target
+//@ timeout: 1800
+//@ mem_gb: 10
+//@ note: for every board content (13^64), side, rights, ep square and counters the text written by write() is byte for byte the FEN the standard prescribes (independent spec: ranks 8 down to 1 separated by '/', files a to h, maximal runs of empty squares as one digit, then side, rights, ep square, halfmove clock, fullmove number separated by single spaces)
+//@ assumes: ghost text library (support/gtext.rs) stands for alloc's String / format! / ToString / join: concatenation of Display renderings in order; Display for File / Rank writes notation()
+#[kani::proof]
+#[kani::unwind(98)]
+fn vk_c06_writer_whole_text() {
+    let game = any_game();
+    kani::assume(game.halfmove_clock < 1000 && game.plies < 20000);
+    let got = g::write(&game);
+    let mut want = gtext::String::new();
+    let mut r: usize = 8;
+    while r > 0 {
+        r -= 1;
+        let mut rank: [Option<Piece>; 8] = [None; 8];
+        let mut f = 0;
+        while f < 8 {
+            rank[f] = game.board.sq[r * 8 + f];
+            f += 1;
+        }
+        spec_rank(&rank, &mut want);
+        if r > 0 {
+            want.push_byte(b'/');
+        }
+    }
+    want.push_byte(b' ');
+    want.push_byte(if game.player == Player::White { b'w' } else { b'b' });
+    want.push_byte(b' ');
+    let w = game.castle_rights.white();
+    let b = game.castle_rights.black();
+    if w.king_side { want.push_byte(b'K'); }
+    if w.queen_side { want.push_byte(b'Q'); }
+    if b.king_side { want.push_byte(b'k'); }
+    if b.queen_side { want.push_byte(b'q'); }
+    if !(w.king_side || w.queen_side || b.king_side || b.queen_side) { want.push_byte(b'-'); }
+    want.push_byte(b' ');
+    match game.en_passant_target {
+        None => want.push_byte(b'-'),
+        Some(s) => {
+            want.push_byte(b'a' + s.0.idx() % 8);
+            want.push_byte(b'1' + s.0.idx() / 8);
+        }
+    }
+    want.push_byte(b' ');
+    gtext::GDisplay::put(&game.halfmove_clock, &mut want);
+    want.push_byte(b' ');
+    gtext::GDisplay::put(&(game.plies / 2 + 1), &mut want);
+    kani::cover!(got.len() > 80);
+    kani::cover!(got.len() < 30);
+    assert!(got.eq_text(&want), "write() differs from the FEN the standard prescribes");
 }
 
 //@ obligation: C06.canary.writer
 //@ status: experimental
 //@ canary: true
-//@ timeout: 1500
-//@ mem_gb: 10
+//@ timeout: 600
+//@ mem_gb: 4
 #[kani::proof]
 #[kani::unwind(8)]
 fn vk_c06_canary_writer() {
-    let g = any_game();
-    let got = format_castle_rights__body(&g);
-    assert!(got.as_bytes().len() < 4); // must FAIL: all four rights give "KQkq"
+    let g = any_fields_game();
+    let got = g::format_castle_rights(&g);
+    assert!(got.len() < 4); // must FAIL: all four rights give "KQkq"
 }
